@@ -432,7 +432,11 @@ pub fn run(tier: Tier) -> i32 {
         per.push(j);
         samples.extend(st.samples.into_iter().take(1));
     }
+    // ---- one real pool, equivocated sibling chains, every delivery order: the finalized set is a
+    // function of the held certificates and blocks (so nodes holding the same inputs agree)
+    let order_cov = crate::c07_c08_c18::run_scens(&report, "C01", crate::c07_c08_c18::sibling_scens(tier), tier.pick(400_000, 4_000_000), tier.pick(20, 120), tier.pick(60, 1500));
     let cov = json!({
+        "order_independence_of_finalization": order_cov,
         "states": total.states,
         "transitions": total.transitions,
         "traces_validated_against_impl": total.transitions,
